@@ -360,4 +360,42 @@ example : specAniso cancelling = true ∧ isIso cancelling = false := by decide 
 theorem legacy_isotropic_fails_on : isIsoLegacy cancelling = true ∧ specAniso cancelling = true := by decide +kernel
 example : (atomLoop [cancelling, { cancelling with name := "Q1", qpeak := true }]).map (·.label) = ["C1"] := by decide +kernel
 
+/-! ## (d) histories on one object -/
+
+theorem exportCif_eq_spec (o : Obj) : exportCif o = specCif o := by
+  simp [exportCif, specCif, cif_atoms_nonq, cif_adp_aniso]
+
+/-- **hist_export_reflects_current** — for EVERY history of reads, API edits and exports on one object and every
+    position `k` that is an export: the CIF written there (the `countExports (steps.take k)`-th one) is the CIF of
+    the state the steps before `k` leave the object in — whatever was read, edited or exported earlier. -/
+theorem hist_export_reflects_current (o : Obj) (steps : List Step) (k : Nat) (hk : steps[k]? = some .write) :
+    (runHist o steps)[countExports (steps.take k)]? = some (specCif ((steps.take k).foldl step o)) := by
+  induction steps generalizing o k with
+  | nil => simp at hk
+  | cons s t ih =>
+    cases k with
+    | zero =>
+      simp only [List.getElem?_cons_zero, Option.some.injEq] at hk
+      subst hk
+      simp [runHist, countExports, exportCif_eq_spec]
+    | succ k =>
+      simp only [List.getElem?_cons_succ] at hk
+      cases s with
+      | write =>
+        simpa [runHist, countExports, step] using ih o k hk
+      | read o' =>
+        simpa [runHist, countExports, step] using ih o' k hk
+      | edit f =>
+        simpa [runHist, countExports, step] using ih (f o) k hk
+
+/-- non-vacuity: read, export, read another structure, export — the second CIF is the second structure's -/
+example (a b : Obj) :
+    (runHist a [.write, .read b, .write])[1]? = some (specCif b) :=
+  hist_export_reflects_current a [.write, .read b, .write] 2 rfl
+
+/-- … and an edit of Z between two exports shows in the second one -/
+example : ((runHist ⟨bare, []⟩ [.write, .edit (fun o => { o with src := { o.src with zerr := some 4 } }), .write])[1]?).map
+    (fun c => match c.items with | .ok l => lookup "_cell_formula_units_Z" l | .error _ => none) = some (some (.num 4)) := by
+  decide +kernel
+
 end Shelx.C18
